@@ -162,6 +162,29 @@ def check_channel(ctx, a, b, ida, idb, msgs, tag):
                 after.append(('enc', pkt, m, od))
                 lines.append(f'adnl_dec {hx(RY.shared)} {hx(pid)} {hx(lid)} {cs.hex()}')
                 after.append(('dec', body, m, od))
+        # traffic on ONE channel object: the same plaintext sent again, packets duplicated / dropped / reordered on the way -
+        # every packet is a function of (keys, plaintext) only and every delivered packet decrypts to its plaintext
+        if msgs:
+            rng = ctx.rng
+            m1, m2 = msgs[0], msgs[-1]
+            sent = [m1, m1, m2, m1, m1, b'', b'', m2]
+            pkts = [call(X.encrypt, m) for m in sent]
+            for k, (m, pkt) in enumerate(zip(sent, pkts)):
+                if pkt is None or pkt != RX.encrypt(m):
+                    ctx.fail(f'traffic-encrypt:{od}', f'packet {k} of a sequence with repeated plaintexts is not the packet of its plaintext '
+                             '(the channel remembers something between calls)', dict(inp0, direction=name, sent=[x.hex()[:40] for x in sent], k=k),
+                             pkt.hex()[:200] if pkt else 'exception', RX.encrypt(m).hex()[:200])
+                    break
+            else:
+                delivery = [0, 0, 1, 3, 2, 2, 7, 5, 5, 4]          # duplicates, a drop (6), reordering
+                for k in delivery:
+                    back = call(Y.decrypt, pkts[k][64:], pkts[k][32:64])
+                    ctx.count('traffic-delivery')
+                    if back != sent[k]:
+                        ctx.fail(f'traffic-decrypt:{od}', f'delivered packet {k} (delivery order {delivery}: duplicates, one drop, reordering) does not '
+                                 'decrypt to its plaintext', dict(inp0, direction=name, sent=[x.hex()[:40] for x in sent], k=k),
+                                 back.hex()[:200] if back is not None else 'exception', sent[k].hex()[:200])
+                        break
     if lines:
         outs = ctx.model.run(lines)
         for line, out, (kind, data, m, od) in zip(lines, outs, after):
@@ -277,6 +300,18 @@ def check_sign(ctx, seed, m, alt_seed):
         s2 = bytearray(sig); s2[j // 8] ^= 1 << (j % 8)
         alts.append((f'signature-bit', pk, m, bytes(s2)))
     alts += [('signature-truncated', pk, m, sig[:63]), ('signature-extended', pk, m, sig + b'\x00'), ('signature-zero', pk, m, bytes(64))]
+    # the boundary between signature and message moved: (sig || m[:k], m[k:]) and the splice the other way round (a genuine
+    # signature over X||m followed by X) - "another message / an altered signature" even though sig||msg is the same byte string
+    if len(m) >= 1:
+        k = 1 + rng.randrange(len(m))
+        alts.append(('boundary-shift', pk, m[k:], sig + m[:k]))
+    x = rng.randbytes(1 + rng.randrange(8))
+    sx = call(sign_message, x + m, sk)
+    if sx is not None:
+        alts.append(('boundary-splice', pk, m, sx + x))
+    # a signature that verified once for m must not verify for another message afterwards (nothing is remembered per key/signature)
+    alts.append(('replayed-for-other-message', pk, m + b'!', sig))
+    alts.append(('replayed-for-empty-message', pk, b'' if m else b'x', sig))
     for what, k, mm, ss in alts:
         ctx.case(('sign-alt', seed, m, what, k, mm, ss), nontrivial=True, sample=None)
         ctx.count(f'sign-reject:{what}')
@@ -459,6 +494,18 @@ def mnemonic_cases(ctx):
     for _ in range(ctx.n(300, 3000)):
         check_validity(ctx, [rng.choice(K.words) for _ in range(24)], 'random-24')
     check_validity(ctx, [], 'empty')
+    # valid mnemonics holding the FIRST and the LAST word of the list (index 0 / 2047 are values like any other): found by
+    # drawing lists with that word forced at a random position until one is a basic seed (1 in 256)
+    for w_ in (K.words[0], K.words[-1], K.words[1]):
+        for _ in range(ctx.n(2, 8)):
+            for _try in range(5000):
+                ws = [rng.choice(K.words) for _ in range(24)]
+                ws[rng.randrange(24)] = w_
+                if rng.random() < 0.3:
+                    ws[rng.randrange(24)] = w_
+                if ref_valid(ws):
+                    check_validity(ctx, ws, 'valid-with-edge-word')
+                    break
     # lists whose entropy IS a basic seed but whose length is not 24: must be invalid by length alone
     for n in [23, 25, 12, 18, 1] + [rng.randrange(1, 49) for _ in range(ctx.n(3, 20))]:
         if n == 24:
@@ -468,6 +515,38 @@ def mnemonic_cases(ctx):
             if ref_basic_output(ws)[0] == 0:
                 check_validity(ctx, ws, 'basic-seed-wrong-length')
                 break
+
+
+def check_colliding(ctx, pairs):
+    """derivation is a function of the WORD LIST: two valid mnemonics that only agree after gluing their words together
+    (['car','pet','kitten',..] / ['carpet','kit','ten',..]) derive their own keys, in whichever order they are used"""
+    from pytoniq_core.crypto import keys as K
+    for i, (l1, l2) in enumerate(pairs):
+        order = [l1, l2, l1] if i % 2 == 0 else [l2, l1, l2]
+        for ws in order:
+            ctx.case(('mn-collide', tuple(ws)), nontrivial=True, sample=None)
+            ctx.count('mnemonic-colliding-derivations')
+            inp = {'kind': 'colliding-mnemonics', 'pairs': [[l1, l2]]}
+            if call(K.mnemonic_is_valid, list(ws)) is not True or not ref_valid(ws):
+                ctx.fail('mnemonic-validity:colliding', 'a valid mnemonic is reported invalid', inp, False, True)
+                return
+            want = ref_wallet_key(ws)
+            for fname in ('mnemonic_to_wallet_key', 'mnemonic_to_private_key'):
+                f = getattr(K, fname, None)
+                if f is None:
+                    continue
+                got = call(f, list(ws))
+                if fname == 'mnemonic_to_wallet_key' and (got is None or tuple(got) != tuple(want)):
+                    ctx.fail('derive-history:' + fname, f'{fname} of a mnemonic depends on which mnemonic was derived before (word lists that '
+                             'concatenate to the same text)', inp, [x.hex() for x in got] if got else 'exception', [x.hex() for x in want])
+                    return
+                again = call(f, list(ws))
+                if again is None or got is None or tuple(again) != tuple(got):
+                    ctx.fail('derive-history:' + fname, f'{fname} twice on the same words gives different keys', inp)
+                    return
+        k1, k2 = call(K.mnemonic_to_wallet_key, list(l1)), call(K.mnemonic_to_wallet_key, list(l2))
+        if k1 is not None and k2 is not None and tuple(k1) == tuple(k2):
+            ctx.fail('derive-history:distinct', 'two different valid mnemonics derive the same wallet key', {'kind': 'colliding-mnemonics', 'pairs': [[l1, l2]]})
 
 
 def run(ctx):
@@ -483,7 +562,9 @@ def replay(ctx, payload):
     if not isinstance(inp, dict):
         return
     k = inp.get('kind')
-    if k == 'channel':
+    if k == 'colliding-mnemonics':
+        check_colliding(ctx, inp['pairs'])
+    elif k == 'channel':
         msgs = [bytes.fromhex(inp['m'])] if 'm' in inp else [b'', b'abc']
         check_channel(ctx, bytes.fromhex(inp['a']), bytes.fromhex(inp['b']), bytes.fromhex(inp['ida']), bytes.fromhex(inp['idb']), msgs, inp.get('tag', 'replay'))
     elif k == 'cipher':
